@@ -46,6 +46,10 @@ def run(ctx):
         ctx.witness(f)
     scope_check.run(ctx, rnd)
     reserved(ctx)
+    # names belong to one template: what another template configured (extra builtins of the same names, ...) does not
+    # change how this one resolves them
+    from .. import isolation
+    ctx.replays += isolation.run(ctx, "variable scope")
     ctx.exhaustive = True
     ctx.rule = ("all chains of <=2 (quick: + 250 sampled of the 3375 chains of 3; thorough: all) nested elements, each "
                 "define-local / define-global / repeat over the name pool, x every subset of initially bound names; "
